@@ -27,7 +27,7 @@ impl ProgProperty for C05 {
         }
     }
     fn mix(&self, _tier: Tier) -> Mix {
-        Mix { raw: 20, strukt: 0, div: 80, wide: 0, big: 0, roam: 0, deep: 0, commented: 0 }
+        Mix { raw: 20, strukt: 0, div: 80, wide: 0, big: 0, roam: 0, deep: 0, commented: 0, hibits: 0 }
     }
     fn max_steps(&self) -> u64 {
         400_000
